@@ -57,6 +57,7 @@ fn main() {
                 }
             }
         }
+        Some("determinism") => cmd_determinism(&args),
         Some("longsym") => {
             selftest::long_symbol_report();
             0
@@ -305,4 +306,66 @@ fn cmd_check(args: &[String]) -> i32 {
         exit
     );
     exit
+}
+
+
+/// Prove the simulator deterministic: every property, the same seeds, executed
+/// with 16, 5 and 1 workers (and twice with 16) must measure exactly the same
+/// thing (order-independent fingerprint over case ids, event-log hashes and
+/// every counter).
+fn cmd_determinism(args: &[String]) -> i32 {
+    let runs: u64 = arg_val(args, "--runs").and_then(|s| s.parse().ok()).unwrap_or(3000);
+    let seeds: Vec<u64> = arg_val(args, "--seeds")
+        .map(|s| s.split(',').filter_map(|x| x.parse().ok()).collect())
+        .unwrap_or_else(|| vec![1, 2, 3]);
+    let only = arg_val(args, "--property");
+    let verif_dir = arg_val(args, "--verif-dir").unwrap_or_else(|| "/verif".into());
+    let mut bad = 0;
+    for prop in props::all() {
+        if let Some(o) = &only {
+            if o != prop.id() {
+                continue;
+            }
+        }
+        for seed in &seeds {
+            let mut prints = Vec::new();
+            for jobs in [16usize, 16, 5, 1] {
+                let r = if prop.runs(Tier::Quick) < 5000 { runs / 20 + 5 } else { runs };
+                let opts = CheckOpts {
+                    tier: Tier::Quick,
+                    seed: *seed,
+                    jobs,
+                    budget_s: 600.0,
+                    verif_dir: verif_dir.clone(),
+                    runs_override: Some(r),
+                    child: true,
+                };
+                let res = runner::check(prop, &opts);
+                let fp = res
+                    .summary
+                    .get("fingerprint")
+                    .and_then(|x| x.as_str())
+                    .unwrap_or("?")
+                    .to_string();
+                prints.push((jobs, fp, res.exit));
+            }
+            let same = prints.iter().all(|p| p.1 == prints[0].1 && p.2 == prints[0].2);
+            println!(
+                "{} seed {}: {} {}",
+                prop.id(),
+                seed,
+                prints.iter().map(|p| format!("{}w:{}", p.0, p.1)).collect::<Vec<_>>().join(" "),
+                if same { "DETERMINISTIC" } else { "DIVERGES" }
+            );
+            if !same {
+                bad += 1;
+            }
+        }
+    }
+    if bad > 0 {
+        eprintln!("HARNESS-ERROR: {} (property, seed) pairs diverged", bad);
+        2
+    } else {
+        0
+    }
 }
